@@ -70,6 +70,7 @@ structure Reserve (c c' : Chunk) (n i : Nat) : Prop where
   roomFull : (c.limit ≤ 0 ∨ (c.len : Int) + n < c.limit) → c'.len = i + n
   clamped : c'.len < i + n → (c'.len : Int) = c.limit
   ix : c.len - c.rpos ≤ i
+  rp : c'.rpos = c.rpos ∨ c'.rpos = 0
 
 /-- an operation that failed (or only rewound an empty buffer) kept the queue content -/
 structure Kept (c c' : Chunk) : Prop where
@@ -77,21 +78,22 @@ structure Kept (c c' : Chunk) : Prop where
   limit : c'.limit = c.limit
   unread : c'.unread = c.unread
   len_le : c'.len ≤ c.len
+  rp : c'.rpos = c.rpos ∨ c'.rpos = 0
 
-theorem Kept.refl {c : Chunk} (h : c.Inv) : Kept c c := ⟨h, rfl, rfl, Nat.le_refl _⟩
+theorem Kept.refl {c : Chunk} (h : c.Inv) : Kept c c := ⟨h, rfl, rfl, Nat.le_refl _, Or.inl rfl⟩
 
 theorem reslice_reserve {c c' : Chunk} {n i : Nat} (h : c.Inv) (hr : reslice c n = some (c', i)) :
     Reserve c c' n i := by
   obtain ⟨h1, rfl, h3, h4, h5, h6, h7, h8, h9, h10⟩ := reslice_spec h hr
   exact ⟨h1, h5, by simp [unread, h3, h4], by rw [h4]; exact h.rl, h6, h7, h9, h10,
-    Nat.sub_le _ _⟩
+    Nat.sub_le _ _, Or.inl h4⟩
 
 theorem growPre_kept {c : Chunk} (h : c.Inv) : Kept c (growPre c) := by
   have hu := unread_length c h
   unfold growPre
   split
   · rename_i hc
-    refine ⟨⟨by simp, by simp, ?_, h.nil⟩, rfl, ?_, by simp⟩
+    refine ⟨⟨by simp, by simp, ?_, h.nil⟩, rfl, ?_, by simp, Or.inr rfl⟩
     · intro hp; simp only at hp ⊢; omega
     · have : c.unread = [] := List.length_eq_zero_iff.mp (by omega)
       rw [this]; simp [unread]
@@ -115,7 +117,7 @@ theorem growAlloc_ok {c c' : Chunk} {n i : Nat} (h : c.Inv)
     have hr : c.rpos = 0 := by omega
     have hun : c.unread = [] := List.length_eq_zero_iff.mp (by omega)
     refine ⟨⟨by simp [hr], by simp [zeros_length]; exact hc.2, ?_, by simp⟩, rfl, by simp [hun],
-      by simp [hr], by simp, by simp, by intro; simp, by simp, by omega⟩
+      by simp [hr], by simp, by simp, by intro; simp, by simp, by omega, Or.inl rfl⟩
     intro hp; have := hn hp; simp only; omega
   · simp only at hg
     split at hg
@@ -125,7 +127,7 @@ theorem growAlloc_ok {c c' : Chunk} {n i : Nat} (h : c.Inv)
       obtain ⟨rfl, rfl⟩ := hg
       have hcap : c.cap = c.arr.length := rfl
       refine ⟨⟨by simp, ?_, ?_, ?_⟩, rfl, ?_, by simp, by simp, by simp, by intro; simp, by simp,
-        Nat.le_refl _⟩
+        Nat.le_refl _, Or.inr rfl⟩
       · simp only [List.length_append, List.length_drop, hu]; rw [hcap] at hs; omega
       · intro hp; have := hn hp; simp only; omega
       · intro hnil
@@ -143,7 +145,7 @@ theorem growAlloc_ok {c c' : Chunk} {n i : Nat} (h : c.Inv)
             simp only [Prod.mk.injEq, Except.ok.injEq] at hg
             obtain ⟨rfl, rfl⟩ := hg
             refine ⟨⟨by simp, ?_, ?_, by simp⟩, rfl, ?_, by simp, by simp, by simp, by intro; simp,
-              by simp, Nat.le_refl _⟩
+              by simp, Nat.le_refl _, Or.inr rfl⟩
             · simp only [List.length_append, zeros_length, hu]; omega
             · intro hp; have := hn hp; simp only; omega
             · simp only [List.drop_zero]
@@ -188,7 +190,7 @@ theorem Reserve.mono {c c' : Chunk} {n n' i : Nat} (h : Reserve c c' n' i) (hn :
        have h7 := h.ix
        rw [h.limit] at h6
        omega,
-   h.ix⟩
+   h.ix, h.rp⟩
 
 theorem Reserve.trans_kept {c0 c c' : Chunk} {n i : Nat} (k : Kept c0 c) (h : Reserve c c' n i)
     (hx : c0.len - c0.rpos ≤ c.len - c.rpos) :
@@ -196,7 +198,7 @@ theorem Reserve.trans_kept {c0 c c' : Chunk} {n i : Nat} (k : Kept c0 c) (h : Re
   ⟨h.inv, by rw [h.limit, k.limit], by rw [h.unread, k.unread], h.ir, h.idx, h.room,
    fun hl => h.roomFull (by have := k.len_le; rw [k.limit]; omega),
    fun hl => by rw [← k.limit]; exact h.clamped hl,
-   Nat.le_trans hx h.ix⟩
+   Nat.le_trans hx h.ix, by rcases h.rp with h1 | h1 <;> rcases k.rp with h2 | h2 <;> simp [h1, h2]⟩
 
 theorem grow_ok {c c' : Chunk} {n i : Nat} (h : c.Inv) (hg : grow cf c n = (c', .ok i)) :
     Reserve c c' n i := by
